@@ -1,6 +1,7 @@
 package main
 
 import (
+	"go/types"
 	"encoding/json"
 	"flag"
 	"fmt"
@@ -203,6 +204,7 @@ func main() {
 	}
 
 	sh := &Shared{cfg: cfg, prog: ld.prog, hpkg: ld.hpkg, enumTab: ld.enumTab, known: loadKnown(filepath.Join(root, "known_findings.json")), hs: hs}
+	sh.jsonUTE, sh.jType, sh.streamType = ld.lookupTypes()
 	sh.explore()
 	exploreT := time.Since(t0) - ld.loadT
 
@@ -247,4 +249,23 @@ func firstLine(s string) string {
 		return s[:i]
 	}
 	return s
+}
+
+func (ld *loaded) lookupTypes() (ute, jt, st types.Type) {
+	for _, p := range ld.prog.AllPackages() {
+		switch p.Pkg.Path() {
+		case "encoding/json":
+			if o := p.Pkg.Scope().Lookup("UnmarshalTypeError"); o != nil {
+				ute = o.Type()
+			}
+		case "github.com/protobom/protobom/internal/verifrt":
+			if o := p.Pkg.Scope().Lookup("J"); o != nil {
+				jt = o.Type()
+			}
+			if o := p.Pkg.Scope().Lookup("Stream"); o != nil {
+				st = o.Type()
+			}
+		}
+	}
+	return
 }
